@@ -115,6 +115,15 @@ def sig_run(initial, ops):
                 elif op == 's':
                     done.append('s')
                     tab.h(2, None)
+                elif op == 'r':
+                    # the code inside the with-blocks raises an ordinary exception: every enclosing manager is left with it
+                    exc = ValueError('body failed')
+                    while stack:
+                        try:
+                            leave(exc)
+                        except KeyboardInterrupt as e2:
+                            exc = e2
+                    break
             except KeyboardInterrupt as e:
                 # unwind the enclosing with-blocks
                 exc = e
